@@ -66,6 +66,33 @@ def case_from_record(rec):
     return {"label": rec.cfg["label"], "n_remove": rec.cfg["n_remove"], "F": rec.inp["F"]}
 
 
+W_TIED = np.array([[0., 2, 6], [0, 6, 3], [2, 1, 6], [3, 0, 2], [3, 6, 1], [4, 2, 0], [6, 0, 1]])      # tied maxima, 3 objectives
+W_LINE = np.array([[i, 6. - i] for i in range(7)])                                                      # exact crowding ties
+W_CONST = np.array([[0., 4, 1], [1, 3, 1], [2, 2, 1], [3, 1, 1], [4, 0, 1.], [1.5, 2.5, 1]])            # constant objective
+W_F7 = np.array([[0., 3, 5], [0, 5, 4], [1, 2, 6], [1, 5, 3], [2, 1, 6], [3, 1, 1], [4, 2, 0], [6, 0, 3]])
+
+
+def corpus(pid):
+    """regression witnesses: F2 / F3 / F4 (known findings, demonstrated on every run through the kernel
+    model) and F5 / F7 (fixed: must stay fixed)"""
+    r = np.random.RandomState(12345)
+    F10 = np.abs(r.standard_normal((40, 3)))
+    F10 = nds_front(F10 / np.sqrt((F10 ** 2).sum(axis=1, keepdims=True)))[:10]
+    F8 = np.column_stack([np.linspace(0, 1, 8) ** 2, 1 - np.linspace(0, 1, 8)])
+    out = [{"label": "pcd", "n_remove": 0, "F": W_TIED},            # F2
+           {"label": "pcd", "n_remove": 8, "F": F10},               # F3
+           {"label": "mnn", "n_remove": 4, "F": F8},                # F4
+           {"label": "2nn", "n_remove": 4, "F": F8}]
+    for lab in ("mnn", "2nn", "pcd"):
+        for nr in (2, 3, 4):
+            out.append({"label": lab, "n_remove": nr, "F": W_LINE})     # F5 ties
+        out.append({"label": lab, "n_remove": 0, "F": W_CONST})         # F5 zero range
+        out.append({"label": lab, "n_remove": 2, "F": W_CONST})
+    out.append({"label": "pcd", "n_remove": 0, "F": W_F7})               # F7
+    out.append({"label": "pcd", "n_remove": 2, "F": W_F7})
+    return out
+
+
 def model_predict(cases):
     lines = ["%d crowd3 %s %d %s" % (i, c["label"], c["n_remove"], " ".join(proto.fmat(np.asarray(c["F"], dtype=float).reshape(len(c["F"]), -1))))
              for i, c in enumerate(cases)]
